@@ -91,6 +91,8 @@ def gen_case(rng, cid):
             r = rng.choice(RATES)
             # amounts within the declared precisions so that rounding in check_balance changes nothing
             q = F(rng.choice([1, 2, 5, 10, 20, 100]))
+            if (q * r).denominator != 1:
+                r = F(rng.choice([2, 4, 5, 8, 10, 20, 125]))
             body = "    %s    %s %s\n    %s    %s %s\n" % (a1, dec_str(q), c1, a2, dec_str(-q * r), c2)
         elif kind == "transfer":
             body = "    %s    %s %s\n    %s    %s %s\n" % (a1, dec_str(v), c1, a2, dec_str(-v), c1)
